@@ -255,6 +255,18 @@ def words_of(body, call_sym, edge_sym=None, stmt_sym=None, start=0, stops=(), ke
 
     def _nsl(l_):
         return l_ if _ns is None else (_ns, l_)
+    try:
+        _cyc = body.cyclic_blocks(succ) if succ is not None else body.cyclic_blocks()
+    except Exception:
+        _cyc = set()
+    _loopdefs = set()
+    for i_ in _cyc:
+        for s_ in body.blocks[i_]["s"]:
+            if s_["k"] == "assign":
+                _loopdefs.add(place_local(s_["lhs"]))
+        t_ = body.blocks[i_]["t"]
+        if t_["k"] == "call" and t_.get("dest") is not None:
+            _loopdefs.add(place_local(t_["dest"]))
     cache_b = {}
     cache_e = {}
     # boolean flag temporaries (e.g. `matches!`, `a && b`): locals whose every definition assigns a bool constant.
@@ -490,6 +502,22 @@ def words_of(body, call_sym, edge_sym=None, stmt_sym=None, start=0, stops=(), ke
                     out.append(("\x00ret", None))
         for l_, i_ in defs_at.get((bb, None), ()):
             out.append(("\x00def", l_, i_))
+        if _cyc:
+            # values redefined around a loop are not tracked (and a block on a cycle must not emit bookkeeping symbols)
+            def _raw(x_):
+                return x_[1] if (isinstance(x_, tuple) and len(x_) == 2 and _ns is not None and x_[0] == _ns) else x_
+            flt = []
+            for s_ in out:
+                if isinstance(s_, tuple) and s_ and isinstance(s_[0], str) and s_[0].startswith("\x00v"):
+                    if bb in _cyc or _raw(s_[1]) in _loopdefs:
+                        continue
+                    if s_[0] in ("\x00vcopy", "\x00vpay", "\x00vtry", "\x00vmap") and _raw(s_[2]) in _loopdefs:
+                        flt.append(("\x00vkill", s_[1]))
+                        continue
+                if bb in _cyc and isinstance(s_, tuple) and s_ and s_[0] in ("\x00def", "\x00set"):
+                    continue
+                flt.append(s_)
+            out = flt
         cache_b[bb] = out
         return out
 
@@ -507,7 +535,7 @@ def words_of(body, call_sym, edge_sym=None, stmt_sym=None, start=0, stops=(), ke
                     if s_["k"] == "assign" and s_["lhs"] == tpl:
                         if s_["rv"]["k"] == "discr":
                             dp = s_["rv"]["pl"]
-                            if isinstance(dp, int) or not dp["p"]:
+                            if (isinstance(dp, int) or not dp["p"]) and a not in _cyc and place_local(dp) not in _loopdefs:
                                 out.append(("\x00vtest", _nsl(place_local(dp)), frozenset(labs)))
                         break
             fl = None
@@ -543,6 +571,8 @@ def words_of(body, call_sym, edge_sym=None, stmt_sym=None, start=0, stops=(), ke
                     # the rule's own edge callback does not know this switch, and it is an explicit `match` on an
                     # Option/Result: the written-out form of `?` / `ok_or..?` / let-else (canonicalised per word, see below)
                     x = ("\x00xm", next(iter(labs)))
+                if a in _cyc and isinstance(x, tuple) and len(x) == 2 and x[0] == "\x00xm":
+                    x = None                # `match iter.next()` and the like: loop control, not an event
                 if isinstance(x, tuple) and len(x) == 4 and x[0] == "\x00dsym":
                     x = [x]
                 if isinstance(x, list):
@@ -749,6 +779,10 @@ def words_of(body, call_sym, edge_sym=None, stmt_sym=None, start=0, stops=(), ke
                         else:
                             res_.append(x_)
                     clean = res_
+            if _depth == 0 and keep_end and end[1] == "return" and vk.get(0, (None,))[0] == "Err" and body.local_ty(0).startswith("core::result::Result<") \
+                    and not any(isinstance(x_, str) and (x_ == "!err" or x_.startswith("ret=Err") or x_.startswith("ret=propagate") or x_.startswith("?Break")) for x_ in clean) \
+                    and os.environ.get("VERIF_NO_ERR_APPEND") is None:
+                clean = list(clean) + ["!err"]      # a path that returns an Err is an error exit, however the Err got there
             if _depth == 0 and inline is None and getattr(body, "inlined", None):
                 # an error propagated by an inlined helper's own `?` and again by the caller's: one error exit
                 clean = [x_ for i_, x_ in enumerate(clean) if not (x_ == "!err" and i_ > 0 and clean[i_ - 1] == "!err")]
@@ -1725,3 +1759,44 @@ def payload_root(t):
             continue
         break
     return s
+
+
+def sets_status_to_self(prog, body):
+    """`impl IntoResponse for StatusCode`: the returned response's status is `self` - written through `status_mut()` or built
+    with `with_status(self)` on a fresh response."""
+    o = Origins(body)
+    wr = [s for bl in body.blocks if not bl.get("cleanup") for s in bl["s"] if s["k"] == "assign" and isinstance(s["lhs"], dict) and "*" in s["lhs"]["p"]]
+    if len(wr) == 1 and term_has_call(o.of_local(wr[0]["lhs"]["l"]), "Response::status_mut") and is_param(strip_identity(o.of_rvalue(wr[0]["rv"])), "self"):
+        return True
+    r = strip_identity(o.of_local(0))
+    if r[0] == "call" and name_matches(r[1], "anemo::types::response::Response::with_status") and is_param(strip_identity(r[2][1]), "self"):
+        base = strip_identity(r[2][0])
+        return base[0] == "call" and name_matches(base[1], ("IntoResponse::into_response", "Response::new", "Response::empty"))
+    return False
+
+
+def check_optional_ms_getter(ob, prog, getter, field, key=None):
+    """`fn x(&self) -> Option<Duration>` over `self.<field>: Option<u64>` (milliseconds): None iff the field is None, and the
+    Some value is Duration::from_millis(the field's payload) - as `.map(Duration::from_millis)`, a match, `?`, if-let..."""
+    b = prog.body(getter)
+    if b is None:
+        raise AnchorLost(f"body {getter} not found")
+    key = key or getter.split("::")[-1]
+
+    def atom(t_):
+        s_ = strip_identity(t_)
+        return "field" if s_[0] == "field" and s_[2] == field and is_param(strip_identity(s_[1]), "self") else None
+    tab = function_cases(prog, b, atom)
+    ok = table_lookup(tab, field="None") == {"None"} and table_lookup(tab, field="Some") == {"Some"}
+    ob.require(ok, f"{key}/option-preserved", f"{getter}: cases {sorted((sorted(k), sorted(v)) for k, v in tab.items())} (must be None ↦ None, Some ↦ Some)", b.path)
+    check_ms_getter(ob, prog, getter, field, key=key)
+    # the millisecond count handed to from_millis is the field's own payload
+    o = Origins(b)
+    fm = [c for c in b.calls() if name_matches(c.fn, "core::time::Duration::from_millis") and not b.is_cleanup(c.bb)]
+    for c in fm:
+        r = payload_root(o.of_operand(c.args[0]))
+        ob.require(r[0] == "field" and r[2] == field, f"{key}/payload", f"{getter}: from_millis({show(o.of_operand(c.args[0]))[:60]})", b.path, b.loc(c.bb))
+    if not fm:
+        ret = o.of_local(0)
+        ob.require(any(x == ("fnptr", "core::time::Duration::from_millis") for x in walk(ret)) and term_has_call(ret, "Option::map"), f"{key}/payload",
+                   f"{getter} returns {show(ret)[:80]}", b.path)
